@@ -143,12 +143,15 @@ fn large_case(case: &mut Case, depth: usize, width: usize) {
     let model = GraphModel(Arc::new(g));
     case.sample(|| model.summary());
     for strategy in STRATEGIES {
-        let threads = *case.rng.pick(&[2usize, 4, 8, 16]);
-        let cfg = RunCfg { threads, visitor: 2, watchdog: Duration::from_secs(180), ..RunCfg::default() };
-        let out = run_checker(&model, strategy, &cfg, false);
-        case.add(&format!("large_runs_{}_t{}", strategy.name(), threads), 1);
-        case.add("states_visited", out.visited_states.len() as u64);
-        check_exhaustive_run(case, &model, &reach, strategy, threads, &out, false);
+        // two runs per strategy: many workers racing on the joins of one layer is where
+        // insert-if-absent arbitration matters
+        for threads in [*case.rng.pick(&[2usize, 4]), *case.rng.pick(&[8usize, 16])] {
+            let cfg = RunCfg { threads, visitor: 2, watchdog: Duration::from_secs(180), ..RunCfg::default() };
+            let out = run_checker(&model, strategy, &cfg, false);
+            case.add(&format!("large_runs_{}_t{}", strategy.name(), threads), 1);
+            case.add("states_visited", out.visited_states.len() as u64);
+            check_exhaustive_run(case, &model, &reach, strategy, threads, &out, false);
+        }
     }
 }
 
@@ -178,9 +181,9 @@ pub fn run(ctx: &mut Ctx) {
         });
     }
     stateright::verif::set_block_size(0);
-    ctx.cases("large_layered", ctx.n(3, 60), 3, |case| {
-        let (d, w) = *case.rng.pick(&[(6usize, 2000usize), (5, 6000), (8, 4000)]);
-        let (d, w) = if case.ctx.quick() { (d.min(6), w.min(3000)) } else { (d, w * 4) };
+    ctx.cases("large_layered", ctx.n(30, 150), 2, |case| {
+        let (d, w) = *case.rng.pick(&[(6usize, 2000usize), (5, 6000), (8, 4000), (4, 12000)]);
+        let (d, w) = if case.ctx.quick() { (d, w) } else { (d, w * 3) };
         large_case(case, d, w);
     });
 }
